@@ -1006,7 +1006,9 @@ func (db *DB) InsertOrUpdateBulk(in chan Object, csize int) (n int, err error) {
 	var o Object
 	var insn int
 
-	chunk := make([]Object, 0, csize)
+	// chunk size is only a hint for allocation: it may be
+	// anything (negative, greater than what can be allocated)
+	chunk := make([]Object, 0)
 	for o = range in {
 		chunk = append(chunk, o)
 		if len(chunk) == csize {
@@ -1015,7 +1017,7 @@ func (db *DB) InsertOrUpdateBulk(in chan Object, csize int) (n int, err error) {
 			if err != nil {
 				return
 			}
-			chunk = make([]Object, 0, csize)
+			chunk = make([]Object, 0, len(chunk))
 		}
 	}
 
